@@ -65,7 +65,9 @@ def gen_history(rng, length, nreg=2):
             lines.append('pt %d copy %d' % (r, rng.randrange(nreg)))
         elif x < 0.90:
             # malformed descriptors
-            bad = rng.choice([b'', b'..', b'a..b', b'[', b'[x]', b'a[1', b'{', b'a{x}', b'9a', b'-a', b'a b\\', b'a.[0].', b'a=', b'a#', b'=v', b'[1+', b'a]'])
+            bad = rng.choice([b'', b'..', b'a..b', b'[', b'[x]', b'a[1', b'{', b'a{x}', b'9a', b'-a', b'a b\\', b'a.[0].', b'a=', b'a#', b'=v', b'[1+', b'a]',
+                              b'[4294967296]', b'[4294967297]=x', b'[8589934593]=CLOBBER', b'[4294967296+]=ins', b'[2147483647]=x', b'[2147483648]', b'a[99999999999999999999]',
+                              b'a#1=new', b'a# x', b'[0]#=v'])
             lines.append('pt %d %s %s' % (r, rng.choice(['type', 'get', 'set', 'delete', 'count', 'keys', 'get_subtree', 'set_subtree']), vlib.hexbytes(bad)))
         elif x < 0.95:
             lines.append('pt %d quote_key %s' % (r, vlib.hexbytes(rng.choice(KEYS + [bytes(rng.randrange(1, 256) for _ in range(rng.randint(1, 6)))]))))
